@@ -47,6 +47,10 @@ SITES = {
     "talattr_unq": '<r><t a=s tal:attributes="a v" b="2"/></r>',
     "unq_interp": '<r><t a=x${v}y b="2"/></r>',
     "comment": '<r><!--x${v}y--></r>',
+    "pi": '<r><?app x${v}y ?></r>',
+    # text and attributes that are translated implicitly (options): the inserted value travels in the mapping
+    "implicit_text": '<r><p>x ${v} y</p></r>',
+    "implicit_attr": '<r><t title="x ${v} y" b="2"/></r>',
     "stringexpr": '<r><t tal:content="string:x${v}y">d</t></r>',
     "nameblock": '<r><p i18n:translate="">x <b i18n:name="n" tal:content="v">d</b> y</p></r>',
     "i18nattr_dq": '<r><t title="${v}" i18n:attributes="title"/></r>',
@@ -64,7 +68,8 @@ SITES = {
     "cdata": '<r><![CDATA[x${v}y]]></r>',
     "textmode": 'x${v}y',
 }
-KINDS = ["str", "strsub", "bytes", "obj", "msg", "intsub", "floatsub", "trkey"]
+KINDS = ["str", "strsub", "bytes", "obj", "msg", "intsub", "floatsub", "trkey", "zmsg"]
+SITE_OPTS = {"implicit_text": {"implicit_i18n_translate": True}, "implicit_attr": {"implicit_i18n_attributes": {"title"}}}
 # plain-str message ids whose catalogue translation is the hostile text: only where the value itself is a message id
 CATALOG = {}
 CATKEY_SITES = ("content_translate", "replace_translate")
@@ -109,6 +114,20 @@ class TrKey(str):
         return o
 
 
+class ZMsg(str):
+    """a message in the style of zope.i18nmessageid: a str subclass with domain / default / mapping attributes whose text
+    is the (hostile) value"""
+    domain = "d"
+    default = None
+    mapping = None
+
+    def __new__(cls, s):
+        o = str.__new__(cls, s)
+        o.default = s
+        o.mapping = {"inner": s}
+        return o
+
+
 class IntSub(int):
     """a number subclass whose string form is hostile (e.g. an int-backed enum with a label)"""
 
@@ -142,6 +161,8 @@ def make_value(kind, s):
         return Obj(s)
     if kind == "msg":
         return Msg(s)
+    if kind == "zmsg":
+        return ZMsg(s)
     if kind == "html":
         return Html(s)
     if kind == "trkey":
@@ -209,7 +230,7 @@ def _render_site(args):
     from chameleon import PageTemplate, PageTextTemplate
     src = SITES[site]
     T = PageTextTemplate if site == "textmode" else PageTemplate
-    t = T(src, translate=translate)
+    t = T(src, translate=translate, **SITE_OPTS.get(site, {}))
     # at the opt-out sites only the bypass itself is claimed: str (and __html__) values
     kinds = ["html"] if site == "html_obj" else (["str"] if site in ("structure_kw", "structure_expr", "cdata", "textmode") else KINDS)
     if site in CATKEY_SITES:
